@@ -119,6 +119,12 @@ var c15DocProto = map[string]int{"doh": 3, "doq": 4, "dot": 5, "dns": 8}
 // for the filtering results the scripted filter gives to the request under
 // test.
 func c15DocVerdict(outcome, host string) (code int, list, rule string) {
+	// With a result at both stages the entry reports the one that determined
+	// what the client received: the request result (cross-checked against
+	// the client's answer by c15VerdictApplies).
+	if reqPart, _, both := strings.Cut(outcome, "+"); both {
+		outcome = reqPart
+	}
 	switch outcome {
 	case "req-blocked", "debug-blocked":
 		id, r := c15ReqRule(host)
@@ -143,6 +149,50 @@ func c15DocVerdict(outcome, host string) (code int, list, rule string) {
 	}
 
 	return 1, "", ""
+}
+
+// c15UpstreamData are the record data only the scripted upstream hands out;
+// c15RewriteData those of the scripted $dnsrewrite.
+var (
+	c15UpstreamData = []string{"100.64.1.1", "2001:db8:ffff::1", "100.64.1.2"}
+	c15RewriteData  = []string{"100.64.9.9", "2001:db8:ffff::99"}
+)
+
+func c15Has(answer []string, data []string) bool {
+	for _, a := range answer {
+		for _, d := range data {
+			if strings.Contains(a, d) {
+				return true
+			}
+		}
+	}
+
+	return false
+}
+
+// c15VerdictApplies cross-checks, for the outcomes with a result at both
+// stages, the reference "the request result decides" against what the client
+// actually received: allowed => the real upstream answer; rewritten into a
+// response => the rewritten data, not the upstream's; rewritten to another
+// name => the upstream answer; blocked => not the upstream answer.  If the
+// client got something else the verdict clause is not applied (which result
+// decides is C02's subject, not C15's).
+func c15VerdictApplies(c c15Case, o *c15Obs) bool {
+	reqPart, _, both := strings.Cut(c.Conf.Outcome, "+")
+	if !both || o.Wrote == 0 {
+		return true
+	}
+	up := c15Has(o.Answer, c15UpstreamData)
+	switch reqPart {
+	case "req-allowed", "rewritten-cname":
+		return up && o.RCode == dns.RcodeSuccess
+	case "rewritten-resp":
+		return !up && o.RCode == dns.RcodeSuccess && (c.QType == dns.TypeHTTPS || c15Has(o.Answer, c15RewriteData))
+	case "req-blocked":
+		return !up
+	}
+
+	return false
 }
 
 // c15AccessBlocked tells whether the statement calls the request
@@ -267,6 +317,7 @@ func c15Judge(c c15Case, o *c15Obs) (fs []vrt.Finding) {
 	// 6. Each entry describes its own request.
 	host := strings.ToLower(strings.TrimSuffix(q.Name, "."))
 	code, list, rule := c15DocVerdict(c.Conf.Outcome, host)
+	verdictApplies := c15VerdictApplies(c, o)
 	cli := q.Client
 	for _, l := range logged {
 		if l.Name != q.Name {
@@ -278,10 +329,10 @@ func c15Judge(c c15Case, o *c15Obs) (fs []vrt.Finding) {
 		if o.Wrote > 0 && l.RCode != o.RCode {
 			f.add("querylog/entry-rcode-differs", "%s: the record has rcode %d, the client was sent %d:%s", desc, l.RCode, o.RCode, show())
 		}
-		if l.Code != code {
+		if verdictApplies && l.Code != code {
 			f.add("querylog/entry-verdict-differs", "%s: the record has result code f=%d, doc/querylog.md prescribes %d for this filtering outcome:%s", desc, l.Code, code, show())
 		}
-		if l.List != list || l.Rule != rule {
+		if verdictApplies && (l.List != list || l.Rule != rule) {
 			f.add("querylog/entry-rule-differs", "%s: the record has list %q rule %q, the rule that matched this request is %q %q:%s", desc, l.List, l.Rule, list, rule, show())
 		}
 		if l.Proto != c15DocProto[q.Proto] {
@@ -340,6 +391,16 @@ func c15Run(r *vrt.Run, c c15Case) (fs []vrt.Finding) {
 	r.Trans(1)
 
 	fs = c15Judge(c, o)
+	if strings.Contains(c.Conf.Outcome, "+") && len(o.Entries) > 0 {
+		if c15VerdictApplies(c, o) {
+			r.Count("two_stage_entries_judged", 1)
+		} else {
+			r.Count("two_stage_entries_reference_not_applicable", 1)
+		}
+		if o.Entries[0].RequestResult != nil && o.Entries[0].ResponseResult != nil {
+			r.Count("two_stage_entries_with_both_results", 1)
+		}
+	}
 
 	// Bookkeeping: classes, states, vacuity.
 	if c.Conf.Requester == "profile" && c.Conf.QL && c.Conf.Outcome == "passed" {
